@@ -1,31 +1,49 @@
 #!/usr/bin/env python3
-"""Run checks against a seeded mutant without disturbing other runs.
+"""Run checks against a seeded mutant WITHOUT touching /repo or /verif's build output.
 
   tools_mutant_check.py <seeded-name> <check id>[,<check id>...] [--tier quick]
 
-Takes /tmp/verif-repo.lock exclusively (ordinary ./check runs hold it shared), applies
-seeded/<name>/patch.diff to /repo, runs the checks, reverts the patch, releases the lock.
-Prints each check's VIOLATION / summary lines.  Exit 0 if every listed check reported a violation."""
-import sys, os, subprocess, fcntl
+Works on copies: /tmp/mc<pid>/v (a copy of /verif with its build output, as it is now, including
+your uncommitted edits) and /tmp/mc<pid>/r (a copy of /repo's working tree with seeded/<name>/patch.diff
+applied); the copy's harness module is pointed at r.  Runs `./check run <id>` there for each id, prints
+each check's VIOLATION / summary lines and the failing case, removes the copies.  Needs no lock, so any
+number of these can run at the same time.  Exit 0 if every listed check reported a violation."""
+import sys, os, subprocess, shutil, json
 name, ids = sys.argv[1], sys.argv[2].split(",")
 extra = sys.argv[3:]
 patch = os.path.join("/verif/seeded", name, "patch.diff")
 assert os.path.exists(patch), patch
-lock = open("/tmp/verif-repo.lock", "w")
-fcntl.flock(lock, fcntl.LOCK_EX)
+base = "/tmp/mc%d" % os.getpid()
+v, r = base + "/v", base + "/r"
+def sh(cmd, cwd=None, env=None):
+    p = subprocess.run(cmd, cwd=cwd, shell=True, env=env, stdout=subprocess.PIPE, stderr=subprocess.STDOUT)
+    return p.returncode, p.stdout.decode("utf-8", "replace")
 ok = True
 try:
-    assert subprocess.run("git status --porcelain --untracked-files=no", cwd="/repo", shell=True, capture_output=True, text=True).stdout.strip() == "", "/repo not clean"
-    subprocess.run(["git", "apply", patch], cwd="/repo", check=True)
-    try:
-        for i in ids:
-            p = subprocess.run(["./check", "run", i] + extra, cwd="/verif", env=dict(os.environ, VERIF_REPO_LOCKED="1"),
-                               capture_output=True, text=True)
-            lines = [l for l in p.stdout.splitlines() if l.startswith("VIOLATION") or " tier=" in l]
-            print("%s on %s: rc=%d" % (i, name, p.returncode)); print("\n".join("   " + l for l in lines))
-            ok &= p.returncode == 1 and any(l.startswith("VIOLATION") for l in lines)
-    finally:
-        subprocess.run(["git", "apply", "-R", patch], cwd="/repo", check=True)
+    os.makedirs(base)
+    sh("rsync -a --exclude .git --exclude work --exclude seeded /verif/ %s/" % v)
+    sh("rsync -a /repo/ %s/" % r)
+    sh("sed -i 's#=> /repo#=> %s#' %s/harness/go.mod" % (r, v))
+    rc, out = sh("git apply %s" % patch, cwd=r)
+    if rc != 0:
+        print("patch does not apply to /repo's current tree:", out[-400:]); sys.exit(2)
+    env = dict(os.environ, VERIF_REPO=r, VERIF_REPO_LOCKED="1")
+    for i in ids:
+        rc, out = sh("./check run %s %s" % (i, " ".join(extra)), cwd=v, env=env)
+        lines = [l for l in out.splitlines() if l.startswith("VIOLATION") or " tier=" in l]
+        print("%s on %s: rc=%d" % (i, name, rc)); print("\n".join("   " + l for l in lines))
+        viol = [l for l in lines if l.startswith("VIOLATION")]
+        if viol:
+            try:
+                rp = viol[0].split("replay=")[1].split()[0]
+                rj = json.load(open(rp))
+                print("   replay kind=%s stream=%s case=%s" % (rj.get("kind"), rj.get("stream"), json.dumps(rj.get("case"))[:700]))
+                if rj.get("what"): print("   what: %s" % str(rj.get("what"))[:500])
+            except Exception as e:
+                print("   (replay unreadable: %s)" % e)
+        else:
+            print("   log tail:\n" + "\n".join("      " + l for l in out.splitlines()[-12:]))
+        ok &= rc == 1 and bool(viol)
 finally:
-    fcntl.flock(lock, fcntl.LOCK_UN)
+    shutil.rmtree(base, ignore_errors=True)
 sys.exit(0 if ok else 1)
